@@ -158,6 +158,21 @@ def corruptions(doc, ver, clsname=None, dictionary=None):
             pass
         elif k == "list":
             pass
+    # 2.0 observed-data: object references must name an existing container member of a permitted type
+    cont = doc.get("objects") if isinstance(doc.get("objects"), dict) else None
+    if cont is not None and ver == "2.0":
+        for p, val, d, owner in walk(doc, clsname, ver):
+            if d["kind"] != "object-ref" or not isinstance(val, str):
+                continue
+            allowed = d.get("valid_types")
+            out.append(_set(p, "objref:dangling", "99"))
+            out.append(_set(p, "objref:dangling-name", "no-such-key"))
+            for key2, o2 in cont.items():
+                if key2 != val and isinstance(o2, dict) and allowed and o2.get("type") not in allowed:
+                    out.append(_set(p, "objref:wrong-type=" + str(o2.get("type")), key2))
+        # a member of a type no reference slot of the document permits makes wrong-type targets available
+        out.append({"path": ["objects", "98"], "op": "add", "kind": "objref:extra-member", "value": {"type": "mutex", "name": "m"}})
+
     # unknown / case-duplicate properties at top level and in every embedded object
     out.append({"path": ["foo_unknown"], "op": "add", "kind": "unknown-property", "value": 1})
     out.append({"path": ["x_custom"], "op": "add", "kind": "unknown-x-property", "value": "v"})
